@@ -50,6 +50,9 @@ type c17In struct {
 	// body (finish, http route blob)
 	N        int `json:"n,omitempty"`
 	BodyKind int `json:"body_kind,omitempty"`
+	// pool: the points (0..6 on response A's timeline) at which response B performs
+	// checkout, first write, second write, close (non-decreasing)
+	Pts []int `json:"pts,omitempty"`
 }
 
 const c17Arrow = "application/vnd.apache.arrow.stream"
@@ -373,8 +376,25 @@ func c17Gen(r *rand.Rand, n int, tier string) []c17In {
 			}
 		}
 	}
+	// overlapping responses on one writer pool: forced interleavings (see c17RunPool).
+	// Every schedule in which B checks out inside A's Close first, for both codecs and
+	// every accepted level; then the sequential extremes; thorough: all 210 schedules.
+	for _, codec := range []string{"gzip", "zstd"} {
+		for level := 1; level <= 4; level++ {
+			for _, pts := range c17PoolSchedules() {
+				critical := pts[0] == 4 || pts[0] == 5
+				if critical || tier == "thorough" || (level == 1 && (pts[3] == 0 || pts[0] == 6 || pts[0] == pts[3])) {
+					out = append(out, c17In{Kind: "pool", Enc: codec, Level: level, Pts: pts, N: []int{3000, 70000, 2}[(pts[1]+pts[2]+level)%3], BodyKind: 1 + (pts[3]+level)%3})
+				}
+			}
+		}
+	}
 	for len(out) < n {
-		switch x := r.Intn(20); {
+		switch x := r.Intn(22); {
+		case x >= 20:
+			all := c17PoolSchedules()
+			out = append(out, c17In{Kind: "pool", Enc: []string{"gzip", "zstd"}[r.Intn(2)], Level: 1 + r.Intn(4), Pts: all[r.Intn(len(all))],
+				N: []int{1, 2, 257, 3000, 70000, 200000}[r.Intn(6)], BodyKind: r.Intn(4)})
 		case x < 5:
 			out = append(out, c17In{Kind: "parse", H: c17Header(r, true)})
 		case x < 11:
@@ -483,7 +503,171 @@ func c17Run(in c17In) CaseOut {
 			Obs: map[string]any{"status": resp.StatusCode, "content_type": ct, "ce": ce, "xce": xce, "advert": adv, "advert_present": advPresent,
 				"body_ok": ok, "raw_eq": rawEq, "wire_len": len(raw), "ref_len": len(ref), "set_level_errs": s.errs}}
 	}
+	if in.Kind == "pool" {
+		return c17RunPool(in, tags)
+	}
 	panic("C17: unknown kind " + in.Kind)
+}
+
+// ---- overlapping responses on the writer pool --------------------------------
+//
+// Response A's timeline has seven points at which response B can act:
+//   0 before A checks out | 1 after A's checkout | 2 after A's first write |
+//   3 after A's second write, before A.Close | 4 inside A.Close, immediately BEFORE the
+//   original resetNil | 5 inside A.Close, immediately AFTER the original resetNil |
+//   6 after A.Close returned.
+// B's four steps (checkout = newCompressWriter, write half 1, write half 2, Close) are
+// assigned to points in non-decreasing order: 210 schedules. Everything is real: the
+// pool, newCompressWriter, pooledCodecWriter.Close, the resetNil closure (wrapped, not
+// replaced). The model's step list is emitted for the code's documented step order
+// (codec Close; resetNil; Put).
+
+func c17PoolSchedules() [][]int {
+	var out [][]int
+	for a := 0; a <= 6; a++ {
+		for b := a; b <= 6; b++ {
+			for c := b; c <= 6; c++ {
+				for d := c; d <= 6; d++ {
+					out = append(out, []int{a, b, c, d})
+				}
+			}
+		}
+	}
+	return out
+}
+
+type c17PoolResp struct {
+	out    bytes.Buffer
+	w      *vgirpc.VerifPooledWriter
+	body   []byte
+	failed bool
+	note   string
+}
+
+func (p *c17PoolResp) do(what string, f func() error) {
+	defer func() {
+		if r := recover(); r != nil {
+			p.failed = true
+			p.note = fmt.Sprintf("%s panicked: %v", what, r)
+		}
+	}()
+	if err := f(); err != nil {
+		p.failed = true
+		p.note = fmt.Sprintf("%s: %v", what, err)
+	}
+}
+
+// one forced run; returns okA, okB, shared (B and A hold the same codec writer), notes
+func c17PoolOnce(in c17In) (bool, bool, bool, string) {
+	// No pool reset between runs: leftovers are idle writers nobody references. A's Put
+	// lands in the P-local private slot (A's own checkout emptied it and B has not Put
+	// yet whenever B is still live), which is the first place B's Get looks.
+	bodyA := c17Body(in.N, in.BodyKind)
+	bodyB := c17Body(in.N+in.N/3+1, in.BodyKind+1)
+	a, b := &c17PoolResp{body: bodyA}, &c17PoolResp{body: bodyB}
+	halfB := len(bodyB) / 2
+	bSteps := []func(){
+		func() {
+			b.do("B checkout", func() error {
+				w, err := vgirpc.VerifNewCompressWriter(in.Enc, &b.out, in.Level)
+				b.w = w
+				return err
+			})
+		},
+		func() { b.do("B write 1", func() error { _, err := b.w.Write(bodyB[:halfB]); return err }) },
+		func() { b.do("B write 2", func() error { _, err := b.w.Write(bodyB[halfB:]); return err }) },
+		func() { b.do("B close", func() error { return b.w.Close() }) },
+	}
+	at := func(point int) {
+		for i, p := range in.Pts {
+			if p == point {
+				bSteps[i]()
+			}
+		}
+	}
+	halfA := len(bodyA) / 2
+	at(0)
+	a.do("A checkout", func() error {
+		w, err := vgirpc.VerifNewCompressWriter(in.Enc, &a.out, in.Level)
+		a.w = w
+		return err
+	})
+	if a.w == nil {
+		return false, false, false, "A checkout failed: " + a.note
+	}
+	a.w.WrapResetNil(func() { at(4) }, func() { at(5) })
+	at(1)
+	a.do("A write 1", func() error { _, err := a.w.Write(bodyA[:halfA]); return err })
+	at(2)
+	a.do("A write 2", func() error { _, err := a.w.Write(bodyA[halfA:]); return err })
+	at(3)
+	a.do("A close", func() error { return a.w.Close() })
+	at(6)
+	ok := func(p *c17PoolResp) bool {
+		dec, good := c17Decode(in.Enc, p.out.Bytes())
+		return !p.failed && good && bytes.Equal(dec, p.body)
+	}
+	shared := b.w != nil && a.w.SameCodecWriter(b.w)
+	return ok(a), ok(b), shared, strings.TrimSpace(a.note + " " + b.note)
+}
+
+func c17RunPool(in c17In, tags []string) CaseOut {
+	if len(in.Pts) != 4 || in.Pts[0] > in.Pts[1] || in.Pts[1] > in.Pts[2] || in.Pts[2] > in.Pts[3] || in.Pts[0] < 0 || in.Pts[3] > 6 {
+		panic(fmt.Sprintf("C17 pool: bad schedule %v", in.Pts))
+	}
+	okA, okB, shared, note := true, true, false, ""
+	for round := 0; round < 2; round++ { // sync.Pool may drop an entry; the worst round counts
+		a, b, sh, n := c17PoolOnce(in)
+		okA, okB, shared = okA && a, okB && b, shared || sh
+		if n != "" {
+			note = n
+		}
+	}
+	// the schedule in the model's steps (A = 0, B = 1), code order: Get Reset Write Write CodecClose Unpin Put
+	pickA, pickB := "None", "None"
+	orA, orB := "0", "0"
+	if shared {
+		if in.Pts[0] == 0 {
+			pickA, orA = "(Some 1%nat)", "2" // A checked out after B
+		} else {
+			pickB, orB = "(Some 0%nat)", "1"
+		}
+	}
+	var rids []string
+	bCount := []int{2, 1, 1, 3} // checkout = Get+Reset; close = CodecClose+Unpin+Put
+	aAfter := []int{2, 1, 1, 1, 1, 1, 0}
+	for point := 0; point <= 6; point++ {
+		for i, p := range in.Pts {
+			if p == point {
+				for k := 0; k < bCount[i]; k++ {
+					rids = append(rids, "1")
+				}
+			}
+		}
+		for k := 0; k < aAfter[point]; k++ {
+			rids = append(rids, "0")
+		}
+	}
+	// one oracle per Get, in schedule order
+	picks, oracle := []string{pickA, pickB}, []string{orA, orB}
+	if in.Pts[0] == 0 {
+		picks, oracle = []string{pickB, pickA}, []string{orB, orA}
+	}
+	halfA, lenB := in.N/2, in.N+in.N/3+1
+	bodies := fmt.Sprintf("[[%d; %d]; [%d; %d]]", halfA, in.N-halfA, lenB/2, lenB-lenB/2) // N_scope is open in the cases file
+	tags = append(tags, "codec="+in.Enc, fmt.Sprintf("level=%d", in.Level), fmt.Sprintf("b-checkout-at=%d", in.Pts[0]), fmt.Sprintf("shared-writer=%v", shared))
+	overlap := !(in.Pts[3] == 0 || in.Pts[0] == 6)
+	if overlap {
+		tags = append(tags, "overlapping")
+	}
+	if in.Pts[0] <= 5 && in.Pts[3] >= 4 && in.Pts[0] >= 1 {
+		tags = append(tags, "b-live-during-a-close")
+	}
+	coqIn := App("C17.Pool", B(in.Enc), Z(int64(in.Level)), bodies, "("+List(rids)+"%nat)", "("+List(oracle)+"%nat)")
+	coqObs := App("C17.OPool", List([]string{Bool(okA), Bool(okB)}), List(picks))
+	return CaseOut{Coq: Pair(coqIn, coqObs), Tags: tags, Nontrivial: overlap,
+		Obs: map[string]any{"ok_a": okA, "ok_b": okB, "b_got_a_writer_or_vice_versa": shared, "note": note,
+			"points": "0 pre-A | 1 A checked out | 2 A wrote 1 | 3 A wrote 2 | 4 in A.Close before resetNil | 5 in A.Close after resetNil | 6 A.Close returned"}}
 }
 
 func c17StampTag(ce, xce string) string {
@@ -499,6 +683,6 @@ func c17StampTag(ce, xce string) string {
 }
 
 func init() {
-	Register("C17", "boundary first (the header pairs of http_compression_test.go and spec edge pairs through choose, parse and real HTTP; every level sequence; every route; body sizes 0..max; every content type x codec through finish), then random: 25% parse and 30% choose on generated ASCII headers (tokens in mixed case, blanks, q-values/parameters, duplicates, unknown codecs, identity anywhere, empty items, control bytes, 8% malformed character soup) with 12 producible sets, 5% finish, 40% real HTTP round trips (13 routes incl. HTML/JSON/plain-text/empty bodies and Arrow error bodies, 17 SetCompressionLevel sequences, bodies up to 64 KiB quick / 1 MiB thorough of four compressibility kinds). Non-trivial: parse yields a token / some accept header is non-blank / every finish and http case. distinct = distinct input JSON",
+	Register("C17", "boundary first (the header pairs of http_compression_test.go and spec edge pairs through choose, parse and real HTTP; every level sequence; every route; body sizes 0..max; every content type x codec through finish), then random: 25% parse and 30% choose on generated ASCII headers (tokens in mixed case, blanks, q-values/parameters, duplicates, unknown codecs, identity anywhere, empty items, control bytes, 8% malformed character soup) with 12 producible sets, 5% finish, 40% real HTTP round trips (13 routes incl. HTML/JSON/plain-text/empty bodies and Arrow error bodies, 17 SetCompressionLevel sequences, bodies up to 64 KiB quick / 1 MiB thorough of four compressibility kinds). Pool: forced interleavings of two overlapping compressed responses A and B on the REAL writer pool (B's checkout / write / write / Close placed at 7 points of A's timeline, two of them inside A's pooledCodecWriter.Close on either side of the real resetNil): all schedules with B's checkout inside A.Close for gzip+zstd x levels 1..4 first, sequential extremes, ~9% random schedules (thorough: all 210 x 8); observed per response: decodes to its own body, and whether the pool handed B the writer A references. Non-trivial: the two responses overlap / parse yields a token / some accept header is non-blank / every finish and http case. distinct = distinct input JSON",
 		c17Gen, c17Run)
 }
